@@ -232,11 +232,13 @@ func runStress(c *Ctx, o stressOpts) *stressResult {
 	var wg sync.WaitGroup
 	started := time.Now()
 	if o.LateReplies > 0 {
-		// replies that arrive after the 6 s request deadline, on the multiplexed upstream transports,
+		// replies that arrive after the 6 s request deadline, on the multiplexed and the one-at-a-time stream transports,
 		// while the rest of the workload keeps those connections busy: whatever they carry must never
 		// surface in anybody's answer
 		for _, up := range ups {
-			if up != "udp" && up != "pipe" && up != "dotp" {
+			if up != "udp" && up != "pipe" && up != "dotp" && up != "tcp" && up != "dot" {
+				// (tcp, dot: one query at a time per connection - a reply that comes after the transport's
+				// own time-out must find its connection gone, not waiting in the pool for the next query)
 				continue
 			}
 			for k := 0; k < o.LateReplies; k++ {
